@@ -39,6 +39,11 @@ Theorem C12_de_kth_best_never_worse mx ts ps k : length ts = length ps -> (k < l
 Proof. exact (de_kth_best_never_worse mx ts ps k). Qed.
 Print Assumptions C12_de_kth_best_never_worse.
 
+(* MWEA: size // k + 1 elections of k >= 1 winners, then top-k(size): exactly the population size again *)
+Theorem C12_mwea_keeps_size size k : (1 <= k)%nat -> mwea_size size k = size.
+Proof. exact (mwea_keeps_size size k). Qed.
+Print Assumptions C12_mwea_keeps_size.
+
 Example C12_example :
   de_select true [5; 1; 7] [5; 2; 9] = [5; 2; 9] /\ de_select false [5; 1; 7] [5; 2; 9] = [5; 1; 7] /\
   topk true 2 [4; 9; 4; 1] [3; 0; 2; 1]%nat = [4; 9] /\ is_argsort [4; 9; 4; 1] [3; 0; 2; 1]%nat.
